@@ -1357,11 +1357,15 @@ func (s *Set) SymmetricDifference(other Iterator) (Value, error) {
 	diff := s.clone()
 	var x Value
 	for other.Next(&x) {
-		found, err := diff.Delete(x)
+		// Decide by membership in s, not in the partial result,
+		// so that a repeated element of other is not toggled twice.
+		found, err := s.Has(x)
 		if err != nil {
 			return nil, err
 		}
-		if !found {
+		if found {
+			diff.Delete(x) // can't fail
+		} else {
 			diff.Insert(x) // can't fail
 		}
 	}
